@@ -78,7 +78,7 @@ EXTRA: dict = {
     'T4d': {'k': 'toeplitz', 'band': [2, 1], 's': [4], 'method': 'dense'},
     'T4b': {'k': 'toeplitz', 'band': [[2, 1], [3, -1]], 's': [2, 4], 'method': 'dense'},
     'T5dir': {'k': 'toeplitz', 'band': [[4, 1, 2], [1, 0, -2]], 's': [2, 5], 'method': 'direct'},
-    'T4tree': {'k': 'toeplitz', 'band': [1, 2], 's': {'list': [[4], [4]]}, 'method': 'dense'},
+    # (no pytree input: SymmetricBandToeplitzOperator.mv/as_matrix are written for a single array)
     # Toast observation matrix
     'Obs': {'k': 'obs', 'm': [[1, 0, 2], [0, 3, 0], [4, 0, 5]]},
     # identity / scalars on pytrees
